@@ -65,11 +65,12 @@ Print Assumptions C14_empty.
 
 (* the mappers of the harness are admissible; the one dropping data_id is not *)
 Theorem C14_harness_mappers : forall tbl,
+  sm_ok enc_name (sm_of (SMextra tbl)) /\
   sm_ok (enc_of tbl) (sm_of (SMset tbl)) /\
   sm_ok (fun i => JList [JStr (i_name i); enc_of tbl i]) (sm_of (SMwrap tbl)) /\
   sm_ok (enc_of tbl) (sm_of (SMnew tbl true)) /\
   (forall enc, ~ sm_ok enc (sm_of (SMnew tbl false))).
-Proof. exact (fun tbl => conj (sm_set_ok tbl) (conj (sm_wrap_ok tbl) (conj (sm_new_keep_ok tbl) (sm_new_drop_not_ok tbl)))). Qed.
+Proof. exact (fun tbl => conj (sm_extra_ok tbl) (conj (sm_set_ok tbl) (conj (sm_wrap_ok tbl) (conj (sm_new_keep_ok tbl) (sm_new_drop_not_ok tbl))))). Qed.
 Print Assumptions C14_harness_mappers.
 
 (* the keys written by Node.to_dict and read by Node.from_dict in /repo (lifted
@@ -93,11 +94,13 @@ Print Assumptions C14_source_keys.
 (* from_dict(to_dict_list(t)) succeeds and rebuilds the same tree up to node
    identity: for every tree with unique sibling data_ids (the C03 invariant),
    every admissible serialisation mapper and every deserialisation step that is
-   its inverse on the data objects of the tree (decoding the encoded data gives
-   an object with the same ==-class, hash, str-ness and printed form).  The
+   its inverse on the data objects of the tree ([inverse_on]: from the dict
+   to_dict writes for a node – whatever its "children" entry – it builds an
+   object with the same ==-class, hash, str-ness and printed form; the step may
+   read any entry of the item, as the mappers of the pinned suite do).  The
    rebuilt nodes are allocated in pre-order. *)
 Theorem C14_roundtrip : forall (enc : info -> jv) (sm : smapper) (dd : dmapper) (next : nat) (f : forest),
-  sm_ok enc sm -> sibuniq_f f -> Forall (allinfo (inverse_on enc dd)) f ->
+  sm_ok enc sm -> sibuniq_f f -> Forall (allinfo (inverse_on sm dd)) f ->
   exists f', tree_from_dict dd next (to_dict_list sm f) = inl f' /\
              Forall2 iso f f' /\ ids f' = seq (S next) (size_f f).
 Proof. exact roundtrip. Qed.
@@ -198,7 +201,7 @@ Proof. exact ex_canon. Qed.
 (* objects with an inverse mapper pair (value-equal objects, an identity-hashed
    object, a clone, an explicit id) *)
 Example C14_ex_objects_hyps :
-  sm_ok (enc_of ex_tbl) (sm_of (SMset ex_tbl)) /\ sibuniq_f ex_g /\ Forall (allinfo (inverse_on (enc_of ex_tbl) ex_dd)) ex_g.
+  sm_ok (enc_of ex_tbl) (sm_of (SMset ex_tbl)) /\ sibuniq_f ex_g /\ Forall (allinfo (inverse_on (sm_of (SMset ex_tbl)) ex_dd)) ex_g.
 Proof. exact (conj (sm_set_ok ex_tbl) (conj ex_g_sibuniq ex_g_inverse)). Qed.
 
 (* without the inverse-pair hypothesis, or without sibling uniqueness, the round trip fails *)
